@@ -117,6 +117,8 @@ def r4(ctx, fs):
     if not ok or not thr:
         ctx.finding(rid, f.id, 'no-unification', 'reusable_resource::new_atom must post {!phi, sigma}: an active Use atom that is unified with another one would not be counted in the usage', loc=f.loc)
     _smart.new_atom(ctx, rid, f, RR, 'u_pred')
+    _smart.notify_smart_types(ctx, rid, fs)
+    _smart.recheck_set_grow_only(ctx, rid, fs, RR)
 
 
 def r5(ctx, fs):
